@@ -6,8 +6,10 @@
    `TaskManager.tasks` of `(time, counter, task)` tuples is kept as a list sorted by
    `(time, counter)`: only the pop order of `heapq` is observable (heapq itself is
    trusted).  Tasks are numbered; what a task's callback does is static configuration:
-   it records that it fired, hands `t_defers` to `core.deferred`, then raises iff
-   `t_raises`.
+   it records that it fired, hands `t_defers` to `core.deferred`, performs the scheduling
+   actions `t_acts` in order (install / re-install / suspend / resume of itself or of another
+   task; an API call that raises ends the callback with that exception), then raises iff
+   `t_raises`.  Deferred functions do the same with their `spawns` and `acts`.
 
    code map (py34/bacpypes):
      _Task.install_task            task.py:58-79     do_install_when / _after / reinstall
@@ -24,9 +26,9 @@ From Bac Require Export Base Deferred.
 Open Scope Z_scope.
 
 Inductive kind : Set := OneShot | Recurring (iv off : Z).
-Record tcfg : Set := mkT { t_kind : kind; t_raises : bool; t_defers : list dfn }.
+Record tcfg : Set := mkT { t_kind : kind; t_raises : bool; t_defers : list dfn; t_acts : list sact }.
 Definition cfg := list tcfg.
-Definition cfg_get (c : cfg) (i : nat) : tcfg := nth i c (mkT OneShot false []).
+Definition cfg_get (c : cfg) (i : nat) : tcfg := nth i c (mkT OneShot false [] []).
 
 Definition entry : Set := (Z * N * nat)%type.          (* (taskTime, counter, task) *)
 Definition e_when (e : entry) : Z := fst (fst e).
@@ -129,9 +131,37 @@ Definition get_next_task (s : st) : option entry * st * bool :=
 Inductive event : Set :=
 | EvFire (i : nat) (due : Z) (seq : N) (at_ : Z)     (* process_task callback entered *)
 | EvCall (id : nat)                                  (* a deferred function was called *)
-| EvRaise                                            (* an exception reached the loop's handler *)
-| EvErr (e : err)                                    (* an API call raised / fuel ran out *)
+| EvRaise                                            (* an exception reached a handler of the loops *)
+| EvErr (e : err)                                    (* an API call of the history raised / fuel ran out *)
+(* ghost events: not observable, dropped by the canonical output; they let trace theorems speak
+   about the queue at the moment of a firing and about (re-)installations *)
+| EvPop (e : entry) (rest : list entry)              (* get_next_task popped e, `rest` stayed queued *)
+| EvInst (i : nat) (auto : bool)                     (* TaskManager.install_task succeeded for task i;
+                                                        auto = the re-install of a recurring task by process_task *)
 .
+
+Definition is_ghost (x : event) : bool :=
+  match x with EvPop _ _ | EvInst _ _ => true | _ => false end.
+
+(* one scheduling action of a callback: the result state and the ghost trace, or the exception *)
+Definition do_act (jit : Z) (c : cfg) (s : st) (a : sact) : res (st * list event) :=
+  match a with
+  | AInstall i t => do s' <- do_install_when c s i t; Ok (s', [EvInst i false])
+  | AInstallAfter i d => do s' <- do_install_when c s i (now s + d); Ok (s', [EvInst i false])
+  | AReinstall i => do s' <- do_reinstall jit c s i; Ok (s', [EvInst i false])
+  | ASuspend i => Ok (tm_suspend s i, [])
+  | AResume i => do s' <- tm_install s i; Ok (s', [EvInst i false])
+  end.
+
+(* the actions of one callback, in order; true = an API call raised (the rest is skipped) *)
+Fixpoint run_acts (jit : Z) (c : cfg) (s : st) (l : list sact) : st * list event * bool :=
+  match l with
+  | [] => (s, [], false)
+  | a :: r => match do_act jit c s a with
+              | Ok (s', ev) => let '(s2, ev2, x) := run_acts jit c s' r in (s2, ev ++ ev2, x)
+              | Err _ => (s, [], true)
+              end
+  end.
 
 (* TaskManager.process_task: the callback, then the re-install of a recurring task *)
 Definition process_task (jit : Z) (c : cfg) (s : st) (e : entry) : st * list event * bool :=
@@ -139,26 +169,51 @@ Definition process_task (jit : Z) (c : cfg) (s : st) (e : entry) : st * list eve
   let k := cfg_get c i in
   let s1 := set_dq s (dq s ++ t_defers k) in
   let ev := [EvFire i (e_when e) (e_seq e) (now s)] in
-  if t_raises k then (s1, ev, true)
+  let '(s2, ev2, failed) := run_acts jit c s1 (t_acts k) in
+  if failed || t_raises k then (s2, ev ++ ev2, true)
   else match t_kind k with
-       | OneShot => (s1, ev, false)
+       | OneShot => (s2, ev ++ ev2, false)
        | Recurring iv off =>
-           match rec_install jit s1 i iv off with
-           | Ok s2 => (s2, ev, false)
-           | Err _ => (s1, ev, true)
+           match rec_install jit s2 i iv off with
+           | Ok s3 => (s3, ev ++ ev2 ++ [EvInst i true], false)
+           | Err _ => (s2, ev ++ ev2, true)
            end
        end.
 
-(* what the calls of a batch leave in the trace: the call, and the exception logged by the
-   handler that catches it (the per-call one, or — before the fix — the loop's, for the last call) *)
-Definition calls (l : list dfn) : list event :=
-  flat_map (fun d => EvCall (d_id d) :: (if d_raises d then [EvRaise] else [])) l.
+(* the `for` over one detached batch, threading the scheduler state: every call is logged, the
+   exception of a call (its own, or of one of its API calls) is logged by the handler that
+   catches it — the per-call one (guard), or the loop's, which ends the pass (no guard) *)
+Fixpoint call_batch_s (guard : bool) (jit : Z) (c : cfg) (s : st) (b : list dfn) : st * list event * bool :=
+  match b with
+  | [] => (s, [], false)
+  | d :: rest =>
+      let s1 := set_dq s (dq s ++ d_spawns d) in
+      let '(s2, ev2, failed) := run_acts jit c s1 (d_acts d) in
+      let r := failed || d_raises d in
+      let ev := EvCall (d_id d) :: ev2 ++ (if r then [EvRaise] else []) in
+      if r && negb guard then (s2, ev, true)
+      else let '(s3, ev3, x) := call_batch_s guard jit c s2 rest in (s3, ev ++ ev3, x)
+  end.
 
-(* the `while deferredFns:` block *)
-Definition do_drain (guard : bool) (s : st) : st * list event * bool :=
-  let '(c, q, x) := drain_all guard (dq s) in
-  (set_dq s q, calls c ++ (match x with DOutOfFuel => [EvErr OutOfFuel] | _ => [] end),
-   match x with DDone => false | _ => true end).
+(* the `while deferredFns:` block; third component: an exception left it (or the fuel ran out) *)
+Fixpoint sdrain (guard : bool) (jit : Z) (c : cfg) (fuel : nat) (s : st) : st * list event * bool :=
+  match dq s with
+  | [] => (s, [], false)
+  | b =>
+      match fuel with
+      | O => (s, [EvErr OutOfFuel], true)
+      | S f =>
+          let '(s1, ev, x) := call_batch_s guard jit c (set_dq s []) b in
+          if x then (s1, ev, true)
+          else let '(s2, ev2, x2) := sdrain guard jit c f s1 in (s2, ev ++ ev2, x2)
+      end
+  end.
+
+Definition do_drain (guard : bool) (jit : Z) (c : cfg) (s : st) : st * list event * bool :=
+  sdrain guard jit c (f_size (dq s)) s.
+
+(* get_next_task seen from the loops: the pop with its ghost record *)
+Definition pop_events (s : st) (e : entry) (s1 : st) : list event := [EvPop e (heap s1)].
 
 (* core.run_once: `while delta == 0.0:` inside one try *)
 Fixpoint run_once_loop (guard : bool) (jit : Z) (c : cfg) (fuel : nat) (s : st) : st * list event :=
@@ -167,19 +222,24 @@ Fixpoint run_once_loop (guard : bool) (jit : Z) (c : cfg) (fuel : nat) (s : st) 
   | S f =>
       let '(t, s1, zero) := get_next_task s in
       let '(s2, ev1, r1) := match t with
-                            | Some e => process_task jit c s1 e
+                            | Some e => let '(s2, ev, r) := process_task jit c s1 e in
+                                        (s2, pop_events s e s1 ++ ev, r)
                             | None => (s1, [], false)
                             end in
       if r1 then (s2, ev1 ++ [EvRaise])
-      else let '(s3, ev2, r2) := do_drain guard s2 in
+      else let '(s3, ev2, r2) := do_drain guard jit c s2 in
            if r2 then (s3, ev1 ++ ev2)
            else if zero then let '(s4, ev3) := run_once_loop guard jit c f s3 in (s4, ev1 ++ ev2 ++ ev3)
                 else (s3, ev1 ++ ev2)
   end.
 
 Definition due_count (s : st) : nat := length (filter (fun e => e_when e <=? now s) (heap s)).
+(* callbacks that keep installing due tasks make the real loop spin for ever; the model gives up
+   (OutOfFuel) after `slack` more iterations than there were due entries.  SchedOrder/SchedRun show
+   that the fuel is never exhausted when callbacks have no scheduling actions. *)
+Definition slack : nat := 64.
 Definition run_once (guard : bool) (jit : Z) (c : cfg) (s : st) : st * list event :=
-  run_once_loop guard jit c (S (due_count s)) s.
+  run_once_loop guard jit c (S (due_count s) + slack) s.
 
 (* core.run with spin = 0 and no sockets, stopped as soon as nothing is due and nothing
    is deferred: one `try` per iteration *)
@@ -196,17 +256,18 @@ Fixpoint run_loop (guard : bool) (jit : Z) (c : cfg) (fuel : nat) (s : st) : st 
        | S f =>
            let '(t, s1, _) := get_next_task s in
            let '(s2, ev1, r1) := match t with
-                                 | Some e => process_task jit c s1 e
+                                 | Some e => let '(s2, ev, r) := process_task jit c s1 e in
+                                             (s2, pop_events s e s1 ++ ev, r)
                                  | None => (s1, [], false)
                                  end in
            let '(s3, ev2) :=
              if r1 then (s2, ev1 ++ [EvRaise])
-             else let '(s3, ev2, _) := do_drain guard s2 in (s3, ev1 ++ ev2) in
+             else let '(s3, ev2, _) := do_drain guard jit c s2 in (s3, ev1 ++ ev2) in
            let '(s4, ev3) := run_loop guard jit c f s3 in (s4, ev2 ++ ev3)
        end.
 
 Definition run (guard : bool) (jit : Z) (c : cfg) (s : st) : st * list event :=
-  run_loop guard jit c (2 * due_count s + 2) s.
+  run_loop guard jit c (2 * due_count s + 2 + slack) s.
 
 (* the operations a history is made of *)
 Inductive op : Set :=
@@ -223,22 +284,22 @@ Inductive op : Set :=
 | Run                               (* core.run(spin=0) until quiescent *)
 .
 
-Definition lift (s : st) (r : res st) : st * list event :=
-  match r with Ok s' => (s', []) | Err e => (s, [EvErr e]) end.
+Definition lift (s : st) (r : res (st * list event)) : st * list event :=
+  match r with Ok p => p | Err e => (s, [EvErr e]) end.
 
 Definition step (guard : bool) (jit : Z) (c : cfg) (s : st) (o : op) : st * list event :=
   match o with
-  | Install i t => lift s (do_install_when c s i t)
-  | InstallAfter i d => lift s (do_install_when c s i (now s + d))
-  | Reinstall i => lift s (do_reinstall jit c s i)
-  | Suspend i => (tm_suspend s i, [])
-  | Resume i => lift s (tm_install s i)
+  | Install i t => lift s (do_act jit c s (AInstall i t))
+  | InstallAfter i d => lift s (do_act jit c s (AInstallAfter i d))
+  | Reinstall i => lift s (do_act jit c s (AReinstall i))
+  | Suspend i => lift s (do_act jit c s (ASuspend i))
+  | Resume i => lift s (do_act jit c s (AResume i))
   | Advance d => (set_now s (now s + d), [])
   | ToDue => (match heap s with [] => s | e :: _ => set_now s (Z.max (now s) (e_when e)) end, [])
   | Poll => let '(t, s1, _) := get_next_task s in
             match t with
             | Some e => let '(s2, ev, r) := process_task jit c s1 e in
-                        (s2, ev ++ (if r then [EvRaise] else []))
+                        (s2, pop_events s e s1 ++ ev ++ (if r then [EvRaise] else []))
             | None => (s1, [])
             end
   | Defer f => (set_dq s (dq s ++ [f]), [])
@@ -262,6 +323,7 @@ Definition canon_event (tc : nat -> Z -> Z) (e : event) : list Z :=
   | EvCall id => [2; zn id]
   | EvRaise => [3]
   | EvErr x => [4; err_code x]
+  | EvPop _ _ | EvInst _ _ => []
   end.
 
 Definition canon_entry (tc : nat -> Z -> Z) (e : entry) : list Z :=
@@ -281,7 +343,7 @@ Fixpoint canon_tasks (tc : nat -> Z -> Z) (s : st) (n i : nat) : list Z :=
    recurring task when floats are involved on the other side). *)
 Definition canon_run (tc : nat -> Z -> Z) (showclock : bool) (n : nat) (r : st * list event) : list Z :=
   let '(s, ev) := r in
-  zlen ev :: flat_map (canon_event tc) ev
+  zlen (filter (fun x => negb (is_ghost x)) ev) :: flat_map (canon_event tc) ev
   ++ zlen (heap s) :: flat_map (canon_entry tc) (heap s)
   ++ Z.of_N (ctr s) :: (if showclock then [now s] else [])
   ++ canon_tasks tc s n 0 ++ zlen (dq s) :: ids (dq s).
